@@ -231,8 +231,11 @@ Definition vsession (k : nat) (l : list cdict) : val := let '(vs, k') := session
     ck.notes["dot_sources_checked"] = ndot
     ck.notes["dot_rejected"] = len(bad_dot)
     hits = []
+    def has_empty_line(t):
+        return any((not fs) or any(not isinstance(x, str) and has_empty_line(x) for x in fs) for bf, fs, info in t[1])
     for c, g in bad_dot[:3]:
-        hits.append((enc(c), "F14: Graphviz rejects the output (" + g["dot_err"].replace("\n", " ")[:80] + ")"))
+        tag = "F14: " if any(has_empty_line(t) for t in c["dicts"]) else ""
+        hits.append((enc(c), tag + "Graphviz rejects the output (" + g["dot_err"].replace("\n", " ")[:80] + ")"))
     if diffs and not hits:
         # direct structural oracle on the implementation output
         for i in diffs[:20]:
